@@ -108,14 +108,18 @@ impl GameData {
 
             let repository_paths: Vec<DirEntry> = repository_paths
                 .filter_map(Result::ok)
-                .filter(|s| s.file_type().unwrap().is_dir())
+                .filter(|s| s.file_type().map(|t| t.is_dir()).unwrap_or(false))
                 .collect();
 
             for repository_path in repository_paths {
-                if let Some(expansion_repository) = Repository::from_existing_expansion(
-                    platform.clone(),
-                    repository_path.path().to_str().unwrap(),
-                ) {
+                let repository_path = repository_path.path();
+                let Some(repository_path) = repository_path.to_str() else {
+                    continue;
+                };
+
+                if let Some(expansion_repository) =
+                    Repository::from_existing_expansion(platform.clone(), repository_path)
+                {
                     self.repositories.push(expansion_repository);
                 }
             }
@@ -125,7 +129,7 @@ impl GameData {
     }
 
     fn get_dat_file(&self, path: &str, chunk: u8, data_file_id: u32) -> Option<SqPackData> {
-        let (repository, category) = self.parse_repository_category(path).unwrap();
+        let (repository, category) = self.parse_repository_category(path)?;
 
         let dat_path: PathBuf = [
             self.game_directory.clone(),
@@ -208,7 +212,7 @@ impl GameData {
             }
         }
 
-        Some((&self.repositories[0], string_to_category(tokens.0)?))
+        Some((self.repositories.first()?, string_to_category(tokens.0)?))
     }
 
     fn get_index_filenames(&self, path: &str) -> Option<Vec<(String, u8)>> {
